@@ -79,6 +79,9 @@ func VerifC11WriteStep() {
 	if exists {
 		dirExists = true
 	}
+	// natively a failing write is provoked by a directory sitting at the destination, which a
+	// skip-exists template would (rightly) take for an existing file: keep the two apart
+	vAssume(!(skipExists && writeFails))
 	src := vSrcBad
 	if goodSource {
 		src = vSrcGood
@@ -201,4 +204,115 @@ func VerifC11WriteStep() {
 	vAssert(!failed, "a plain write step failed")
 	vAssert(wroteDest, "the destination file was not written")
 	vAssert(destText == src, "the destination does not hold the rendered source")
+}
+
+func init() { vRegister("VerifC11WriteStepFS", VerifC11WriteStepFS) }
+
+// C11: one write step against a modelled / real file system (no canned os answers): whatever os calls
+// write() uses, a protected existing configure file - also one reached through a symbolic link - keeps
+// its content, and an unprotected destination holds exactly the rendered source afterwards.
+func VerifC11WriteStepFS() {
+	skipExists := vBool2("SkipExists")
+	skipFormat := vBool2("SkipFormat")
+	dest := vChoice("destination", 5) // 0 absent (dir exists) 1 absent (dir missing) 2 longer user file 3 shorter user file 4 symlink to a user file
+	goodSource := vBool2("templateYieldsValidGo")
+	src := vSrcBad
+	if goodSource {
+		src = vSrcGood
+	}
+	longText := "// edited by the user, and quite a bit longer than what the template renders ..............\npackage p\n\nfunc Mine() {}\n"
+	shortText := "package p\n"
+	userText := longText
+	if dest == 3 {
+		userText = shortText
+	}
+	root := "/work"
+	if !vSymbolic() {
+		var err error
+		root, err = os.MkdirTemp("", "verifc11fs")
+		if err != nil {
+			panic(err)
+		}
+		defer os.RemoveAll(root)
+	}
+	dir := filepath.Join(root, "restapi")
+	destPath := filepath.Join(dir, "configure_x.go")
+	userPath := filepath.Join(root, "mine", "conf.go")
+	otherPath := filepath.Join(root, "other.txt")
+	tplPath := filepath.Join(root, "x.gotmpl")
+
+	t := &TemplateOpts{Name: "configure", SkipExists: skipExists, SkipFormat: skipFormat, FileName: "configure_x.go", Target: dir}
+	g := &GenOpts{}
+	g.LanguageOpts = GoLangOpts()
+	g.Target = root
+	if vSymbolic() {
+		vFSInit()
+		vFSDir(root)
+		vFSFile(otherPath, "keep")
+		if dest != 1 {
+			vFSDir(dir)
+		}
+		switch dest {
+		case 2, 3:
+			vFSFile(destPath, userText)
+		case 4:
+			vFSDir(filepath.Join(root, "mine"))
+			vFSFile(userPath, userText)
+			vFSSymlink(destPath, userPath)
+		}
+		vStubReturn("(*github.com/go-swagger/go-swagger/generator.GenOpts).location", dir, "configure_x.go", nil)
+		vStubReturn("(*github.com/go-swagger/go-swagger/generator.GenOpts).render", []byte(src), nil)
+		if goodSource {
+			vStubReturn("(*github.com/go-swagger/go-swagger/generator.LanguageOpts).FormatContent", []byte(src), nil)
+		} else {
+			vStubReturn("(*github.com/go-swagger/go-swagger/generator.LanguageOpts).FormatContent", nil, errors.New("format"))
+		}
+	} else {
+		_ = os.WriteFile(otherPath, []byte("keep"), 0o644)
+		_ = os.WriteFile(tplPath, []byte(src), 0o644)
+		t.Source = tplPath
+		g.templates = templates
+		if dest != 1 {
+			_ = os.MkdirAll(dir, 0o755)
+		}
+		switch dest {
+		case 2, 3:
+			_ = os.WriteFile(destPath, []byte(userText), 0o644)
+		case 4:
+			_ = os.MkdirAll(filepath.Join(root, "mine"), 0o755)
+			_ = os.WriteFile(userPath, []byte(userText), 0o644)
+			_ = os.Symlink(userPath, destPath)
+		}
+	}
+	vCover("scenario")
+	err := g.write(t, struct{ Name string }{"x"})
+	failed := err != nil
+	vObserve("failed", failed)
+	read := func(p string) (string, bool) {
+		if vSymbolic() {
+			return vFSRead(p)
+		}
+		b, e := os.ReadFile(p)
+		return string(b), e == nil
+	}
+	got, gotOK := read(destPath)
+	vObserve("destExists", gotOK)
+	other, otherOK := read(otherPath)
+	vAssert(otherOK && other == "keep", "a write step modified a file that is not its destination")
+	exists := dest >= 2
+	if exists && skipExists {
+		vAssert(!failed, "skipping an existing protected file is reported as an error")
+		vAssert(gotOK && got == userText, "an existing user-editable file was rewritten although regeneration was not requested")
+		if dest == 4 {
+			u, uok := read(userPath)
+			vAssert(uok && u == userText, "the user's file behind the configure link was rewritten")
+		}
+		return
+	}
+	if !skipFormat && !goodSource {
+		vAssert(failed, "generation succeeds although the generated source could not be formatted")
+		return
+	}
+	vAssert(!failed, "a plain write step failed")
+	vAssert(gotOK && got == src, "after the run the destination does not hold exactly the rendered source (stale bytes of an earlier generation?)")
 }
